@@ -1,13 +1,11 @@
 package main
 
 import (
+	"encoding/hex"
 	"fmt"
 	"math/big"
 	"strings"
 
-	sdk "github.com/cosmos/cosmos-sdk/types"
-
-	opchildtypes "github.com/initia-labs/OPinit/x/opchild/types"
 	ophosttypes "github.com/initia-labs/OPinit/x/ophost/types"
 )
 
@@ -122,7 +120,7 @@ func (y *c08Run) stepRelay(k int) []WEvent {
 	}
 	sc := y.sc
 	ev := y.events[k]
-	op := relayOp(ev, sc.SenderString(0))
+	op := y.relayOpFor(ev, sc.SenderString(0))
 	sc.register(op.Sender, op.To)
 	res := sc.Case.Do(op)
 	y.rep.Hist("relay:" + okStr(res.OK))
@@ -302,8 +300,7 @@ func (y *c08Run) stepClaim() {
 	}
 }
 
-// a deposit whose hook tx carries MsgInitiateTokenWithdrawal signed by the recipient; the
-// L2 model's hook payload cannot express it yet, so these cases are monitor-only
+// a deposit whose hook tx carries MsgInitiateTokenWithdrawal signed by the recipient (D14)
 func (y *c08Run) stepHookWithdrawal() {
 	for y.relayed < len(y.events) {
 		y.stepRelay(y.relayed)
@@ -313,9 +310,11 @@ func (y *c08Run) stepHookWithdrawal() {
 	di := r.Intn(len(y.bases))
 	amt := big.NewInt(int64(10 + r.Intn(100000)))
 	part := new(big.Int).Add(big.NewInt(1), new(big.Int).Rsh(amt, 1))
-	acc := e2.AK.GetAccount(e2.Ctx, u.Addr)
-	msg := &opchildtypes.MsgInitiateTokenWithdrawal{Sender: u.Str, To: y.e1.User(uint64(1 + r.Intn(7))).Str, Amount: coinOf(y.l2d[di], part)}
-	data := e2.SignTx([]sdk.Msg{msg}, u.Priv, acc.GetAccountNumber(), acc.GetSequence(), e2.Ctx.ChainID())
+	to := y.e1.User(uint64(1 + r.Intn(7))).Str
+	y.sc.register(u.Str)
+	hook := e2.MakeHookTx(u.ID, e2.AccSeq(u.ID), true, []HookSend{{Withdraw: true, ToL1: to, Denom: y.l2d[di], Amt: part}})
+	data := hook.Raw
+	y.hooks[hex.EncodeToString(data)] = hook
 	if ev, ok := y.deposit(y.l1Sender(), u.Str, y.bases[di], amt, data); ok {
 		y.events = append(y.events, ev)
 		y.check("L1 deposit with a withdrawing hook")
@@ -433,12 +432,12 @@ func genC08(seed uint64, tier string, outdir string) *Report {
 		canon := strings.Join(l1OpsHuman(y.c1.Ops), "\n") + "\n" + strings.Join(opsCoq(y.sc.Case.Ops), "\n")
 		rep.CountCase(canon, y.okClaims > 0 && y.rejected > 0)
 		if hookCase {
-			rep.Hist("case:monitor-only(hook withdrawals)")
+			rep.Hist("case:with-hook-withdrawals")
 		} else {
-			rep.Hist("case:model-compared")
-			texts1 = append(texts1, y.c1.Coq())
-			texts2 = append(texts2, y.sc.Case.Coq())
+			rep.Hist("case:without-hook-withdrawals")
 		}
+		texts1 = append(texts1, y.c1.Coq())
+		texts2 = append(texts2, y.sc.Case.Coq())
 		if k == 0 {
 			ops := l1OpsHuman(y.c1.Ops)
 			if len(ops) > 12 {
@@ -447,7 +446,7 @@ func genC08(seed uint64, tier string, outdir string) *Report {
 			rep.Sample(map[string]interface{}{"kind": "first L1 ops of an interleaving", "ops": ops, "steps": y.steps, "recorded_withdrawals": len(y.leaves), "claims_paid": y.nClaimOK})
 		}
 	}
-	rep.Notes = append(rep.Notes, "solvency equation and event/sequence bookkeeping checked after every step; hook-withdrawal cases are monitor-only (the L2 model's hook payload has no withdrawal message yet)")
+	rep.Notes = append(rep.Notes, "solvency equation and event/sequence bookkeeping checked after every step; a third of the cases contain deposits whose hook tx carries a withdrawal of the recipient (D14)")
 	writeShards(outdir, "C08", l1CaseHeader, "run_l1case", "l1case", texts1, 6, rep)
 	writeShards(outdir, "C08L2", l2CaseHeader, "run_l2case", "l2case", texts2, 2, rep)
 	return rep
